@@ -285,6 +285,9 @@ pub struct ThrCase {
     pub pool_text: Vec<String>,
     pub clients: Vec<Vec<COp>>,
     pub reader_seed: u64,
+    /// the shared parser is constructed on a brand-new helper thread (and only used elsewhere)
+    #[serde(default)]
+    pub built_on_helper: bool,
 }
 
 type OpFn = Arc<dyn Fn(usize, PMode, u64) -> (Outcome, u64, bool) + Send + Sync>;
@@ -316,7 +319,8 @@ fn zoo_arc<'s>(z: usize) -> ZArc<'s> {
         0 => Arc::new(zoo::memo()),
         1 => Arc::new(zoo::pratt()),
         2 => Arc::new(zoo::rx()),
-        _ => Arc::new(zoo::valid()),
+        3 => Arc::new(zoo::valid()),
+        _ => Arc::new(zoo::rx2()),
     }
 }
 
@@ -331,13 +335,15 @@ static ZC0: LazyLock<Cache<ZooC<0>>> = LazyLock::new(|| Cache::new(ZooC::<0>));
 static ZC1: LazyLock<Cache<ZooC<1>>> = LazyLock::new(|| Cache::new(ZooC::<1>));
 static ZC2: LazyLock<Cache<ZooC<2>>> = LazyLock::new(|| Cache::new(ZooC::<2>));
 static ZC3: LazyLock<Cache<ZooC<3>>> = LazyLock::new(|| Cache::new(ZooC::<3>));
+static ZC4: LazyLock<Cache<ZooC<4>>> = LazyLock::new(|| Cache::new(ZooC::<4>));
 
 fn static_cache_get<'s>(z: usize) -> &'s ZArc<'s> {
     match z {
         0 => ZC0.get(),
         1 => ZC1.get(),
         2 => ZC2.get(),
-        _ => ZC3.get(),
+        3 => ZC3.get(),
+        _ => ZC4.get(),
     }
 }
 
@@ -410,7 +416,12 @@ pub fn build_case(c: &ThrCase) -> Built {
             let texts: Box<Vec<String>> = Box::new(c.pool_text.clone());
             // SAFETY: kept alive by `Built`.
             let pool: &'static Vec<String> = unsafe { &*(&*texts as *const Vec<String>) };
-            let shared: ZArc<'static> = zoo_arc(z);
+            let shared: ZArc<'static> = if c.built_on_helper {
+                // built elsewhere, used here: a parser value must not care which thread constructed it
+                std::thread::spawn(move || zoo_arc(z)).join().expect("helper thread")
+            } else {
+                zoo_arc(z)
+            };
             let shared_op: OpFn = Arc::new(move |inp, mode, abort| guarded::<&'static str, _>(&&*shared, || &pool[inp][..], mode, inp, abort));
             let fresh_op: OpFn = Arc::new(move |inp, mode, abort| {
                 let q: ZArc<'static> = zoo_arc(z);
@@ -662,7 +673,8 @@ pub fn gen_case(seed: u64, idx: u64) -> (ThrCase, Rng) {
         }
         clients.push(v);
     }
-    (ThrCase { subject, pool_syms, pool_text, clients, reader_seed }, rng)
+    let built_on_helper = rng.chance(1, 2);
+    (ThrCase { subject, pool_syms, pool_text, clients, reader_seed, built_on_helper }, rng)
 }
 
 fn trace_switch_digest(t: &[u32]) -> u64 {
@@ -749,7 +761,7 @@ impl Engine for ThrSim {
         acc.inc(&format!("cases.clients.{}", nclients));
         acc.inc(&format!("cases.subject.{}", match &case.subject {
             Subject::SyncDyn { kind, .. } => format!("shared_dyn_{:?}", kind),
-            Subject::ZooArc { .. } => "zoo_Arc_dyn".into(),
+            Subject::ZooArc { .. } => if case.built_on_helper { "zoo_Arc_dyn(built on a helper thread)".into() } else { "zoo_Arc_dyn".into() },
             Subject::ZooStaticCache { .. } => "zoo_static_Cache".into(),
         }));
         let mut viol: Option<(Mismatch, usize)> = None;
